@@ -209,14 +209,14 @@ pub fn run_case(case: &Case, prefix: Vec<u32>, profile: ChoiceProfile) -> Run {
 
 /// an execution whose process died (livelock guard, abort, signal)
 pub fn crashed_run(prefix: &[u32], status: &str) -> Run {
-    let class = if status == "exit:42" { "worker-livelock" } else if status == "exit:3" { "machinery" } else { "worker-crash" };
+    let class = if status == "exit:42" || status == "signal:24" { "worker-livelock" } else if status == "exit:3" { "machinery" } else { "worker-crash" };
     if class == "machinery" {
         crate::common::machinery_error("an execution process reported a machinery error");
     }
     Run {
         trace: prefix.iter().map(|c| crate::sim::Point { kind: "replayed".into(), alternatives: c + 1, chosen: *c }).collect(),
         observation: format!("crashed:{status}"),
-        violations: vec![(format!("C01|any|{class}"), format!("the worker process died ({status}) during this execution"))],
+        violations: vec![(format!("C01|any|{class}"), if status == "signal:24" { "the worker span for 30 s of CPU time without coming back to the event loop's system calls".to_owned() } else { format!("the worker process died ({status}) during this execution") })],
         diverged: None,
     }
 }
